@@ -151,15 +151,23 @@ def run(ctx):
                             rd2 = open_reader(ctx, fc, path, gz_path, entry, lazy)
                             fresh = list(rd2.read_chunks(min_chunk_size=k))
                             rd2.close()
+                            peeked = ""
+                            if (k + len(fresh)) % 3 == 0:
+                                # a column was looked at on SOME of the chunks before they are joined (peeking at the first chunk, filtering on one of them)
+                                for c_ in fresh[:max(1, len(fresh) // 2)]:
+                                    getattr(c_, fields[(k + len(fresh)) % len(fields)])
+                                peeked = ":after-a-column-was-read-on-some-chunks"
+                                ctx.count("concatenations_after_partial_column_access")
                             joined = tables.rows_of(np.concatenate(fresh), fields)
                         except Exception as e:
                             if not originates_in_library(e):
                                 raise
                             et, site = exc_site(e)
                             joined = "raised %s@%s" % (et, site)
+                            peeked = locals().get("peeked", "")
                         ctx.judged("np.concatenate(chunks)", (fc["data"], cfg, k) if n_rec >= 2 else None)
                         if joined != rows:
-                            ctx.violation("np.concatenate(chunks)-differs-from-chunk-rows:%s" % ("lazy" if lazy else "eager"), "np.concatenate of the %d chunks (k=%d) differs from the chunks' own rows: %r" % (len(held), k, joined if isinstance(joined, str) else joined[:3]),
+                            ctx.violation("np.concatenate(chunks)-differs-from-chunk-rows:%s%s" % ("lazy" if lazy else "eager", peeked), "np.concatenate of the %d chunks (k=%d) differs from the chunks' own rows: %r" % (len(held), k, joined if isinstance(joined, str) else joined[:3]),
                                           {"cfg": cfg, "k": k, "data": fc["data"].decode("latin1"), "chunk_sizes": sizes, "joined": joined if isinstance(joined, str) else joined[:8], "rows": rows[:8]})
                     ctx.count("reads_completed")
                     nontriv = (fc["data"], cfg, k) if n_rec >= 2 else None
